@@ -9,8 +9,10 @@ the claim on the extracted rows in the kernel.
 
 * `knownUnprotected` — the rows that do NOT satisfy the syntactic discipline on the unchanged tree, listed
   explicitly by (field, function, write?). `suspect`: nothing visible protects the access — a candidate for a
-  real race, which only the dynamic search (`-race`) can confirm. `protocol`: the access is ordered by something
-  the table cannot see (a lock held across functions, a channel hand-off); argued in the note, not proved.
+  real race, which only the dynamic search (`-race`) can confirm (all four `suspect` rows below WERE confirmed:
+  known findings D30–D32). `protocol`: the access is ordered by something the table cannot see (a lock held
+  across functions, a channel hand-off); argued in the note, not proved; the dynamic search found no race on it.
+  `unreachable`: unprotected, but no execution can make the conflicting write happen.
 * `protectedRows` — every other row of a shared (not freshly created) object.
 * `lockTable_ok` / `current_no_regression` — the pairwise check holds on `protectedRows`; the list of failing
   rows is empty. Deleting a Lock/Unlock pair, switching to another mutex, adding an unlocked access site or
@@ -23,7 +25,7 @@ the claim on the extracted rows in the kernel.
 namespace Bpmn.Props.C17
 open Bpmn.Model.Lockset
 
-inductive Why | suspect | protocol
+inductive Why | suspect | protocol | unreachable
 deriving DecidableEq, Repr
 
 structure Known where
@@ -48,15 +50,21 @@ def knownUnprotected : List Known := [
     note := "unlocked map iteration; writer: CloneFor" },
   { key := ("data.PropertyContainer.items", "PropertyContainer.Clone", false), why := .suspect,
     note := "unlocked map iteration; writers: PutItemAwareByName (mu.Lock), CloneFor" },
-  -- HeaderContainer has no mutex at all; its only writer is CloneFor (reached through FlowDataLocator.Merge).
-  { key := ("data.HeaderContainer.items", "HeaderContainer.CloneFor", true), why := .suspect,
-    note := "no mutex; readers FindItemAwareByName / Clone are unlocked too" },
+  -- HeaderContainer has no mutex at all; its only writer is CloneFor (reached through FlowDataLocator.Merge). But it
+  -- has no PutItemAwareByName of its own (the embedded DefaultItemAwareLocator's is a no-op), so every HeaderContainer's
+  -- map stays empty and CloneFor copies nothing: the write can not happen (probe: Merge against CloneItems, no report).
+  { key := ("data.HeaderContainer.items", "HeaderContainer.CloneFor", true), why := .unreachable,
+    note := "no mutex; readers FindItemAwareByName / Clone are unlocked too; items is never populated" },
   -- event-based gateway: the map variable captured by the `terminate` closure ($1) is filled by run before the
   -- action is handed out (ordered by the channel send) and REASSIGNED by the CAS winner inside the transformer ($2).
   { key := ("eventBasedGateway.run.terminationChannels", "eventBasedGateway.run", true), why := .protocol,
     note := "filled before `m.response <- action` publishes the closures" },
-  { key := ("eventBasedGateway.run.terminationChannels", "eventBasedGateway.run$2", true), why := .suspect,
-    note := "reassigned by the CAS winner while loser flows read it through the terminate closure; ordered only by the unbuffered notification sends" }
+  -- candidate from reading, REFUTED: a loser reads the variable when it evaluates its select, then receives on its
+  -- unbuffered termination channel; the winner reassigns only after every such send has completed (a receive
+  -- synchronises before the completion of the send), and a flow that lost the CAS never reads the variable again.
+  -- No report in 120+ event-gateway cases under -race with perturbation.
+  { key := ("eventBasedGateway.run.terminationChannels", "eventBasedGateway.run$2", true), why := .protocol,
+    note := "reassigned by the CAS winner after all notification sends on unbuffered channels have completed" }
 ]
 
 def isKnown (r : Row) : Bool := knownUnprotected.any (fun k => k.key == r.key)
